@@ -10,7 +10,7 @@
 From SC Require Import Lib.Prelude Lib.Int Lib.Host Model.ClaimIssuer Model.Identity Run.C15
   Proofs.C15Base Proofs.C15Bytes Proofs.C15Verify Proofs.C15Issuer Proofs.C15Registry Proofs.C15Ident
   Proofs.C15World Proofs.C15Final Proofs.C15Extra Proofs.C15Monitor Proofs.C15Refuted Proofs.C15Foreign Proofs.C15NoDup
-  Proofs.C15Examples.
+  Proofs.C15Examples Proofs.C15Alias.
 
 (* ------------------------------------------------------------------------------------------ *)
 (* F4 (fixed by commit 66a009a): before the fix a required topic with an empty trusted-issuer
@@ -256,6 +256,52 @@ Theorem C15_key_removal_persists :
       call_is_claim_valid c w' i d t scheme sig data = Fail.
 Proof. exact key_removal_persists. Qed.
 Print Assumptions C15_key_removal_persists.
+
+(* No aliasing in the key registry.  A signing key is the pair (key bytes, scheme number), an
+   authorisation names (signing key, topic, registry).  In every reachable issuer state a successful
+   remove_key takes away exactly the authorisation it names: every other signing key - THE SAME KEY
+   BYTES UNDER ANOTHER SCHEME NUMBER included - and every other topic of the same signing key is
+   allowed exactly as before, wherever the entries sit in the stored vectors and in whatever order
+   they were recorded; the named signing key stays allowed for the topic exactly when it is also
+   recorded for that topic under another registry.                                                *)
+Theorem C15_remove_key_exact :
+  forall c now ctis irss idents issuers (calls : list call) i s pk registry scheme t s',
+    the_issuer (run c (init now ctis irss idents issuers) calls) i = Ok s ->
+    remove_key s pk registry scheme t = Ok s' ->
+    (forall pk' scheme' t', (pk', scheme') <> (pk, scheme) \/ t' <> t ->
+       is_key_allowed_for_topic s' pk' scheme' t' = is_key_allowed_for_topic s pk' scheme' t') /\
+    (is_key_allowed_for_topic s' pk scheme t = true <->
+     exists registry', registry' <> registry /\
+       In (t, registry') (match aget skey_eqb (pk, scheme) (is_pairs s) with Some p => p | None => [] end)).
+Proof. exact remove_key_exact_reachable. Qed.
+Print Assumptions C15_remove_key_exact.
+(* ... and a successful allow_key adds exactly the authorisation it names and takes none away. *)
+Theorem C15_allow_key_exact :
+  forall c now ctis irss idents issuers (calls : list call) i s pk registry scheme t has s',
+    the_issuer (run c (init now ctis irss idents issuers) calls) i = Ok s ->
+    allow_key c s pk registry scheme t has = Ok s' ->
+    forall pk' scheme' t',
+      is_key_allowed_for_topic s' pk' scheme' t' =
+      is_key_allowed_for_topic s pk' scheme' t' || (bytes_eqb pk' pk && (scheme' =? scheme) && (t' =? t)).
+Proof. exact allow_key_exact_reachable. Qed.
+Print Assumptions C15_allow_key_exact.
+(* Instances: the same 32 key bytes allowed for topic 1 under scheme 7 and scheme 101, in both
+   orders, a genuine claim held; the model keeps / stops confirming as the text demands, the checker
+   accepts the model's traces, and the monitor rejects an implementation that drops the first entry
+   with these key bytes instead of the named one (de-authorised key still confirming at call 10;
+   still-authorised key refused at call 10).                                                     *)
+Example C15_key_alias_instances :
+  (verified_after (alias_hist 7 101 ++ [RemoveKey 3%N ex_pk 0%N 7 1]) = true /\
+   verified_after (alias_hist 101 7 ++ [RemoveKey 3%N ex_pk 0%N 7 1]) = true /\
+   keys_after (alias_hist 101 7 ++ [RemoveKey 3%N ex_pk 0%N 7 1]) = Ok [(ex_pk, 101)] /\
+   verified_after (alias_hist 7 101 ++ [RemoveKey 3%N ex_pk 0%N 101 1]) = false /\
+   verified_after (alias_hist 101 7 ++ [RemoveKey 3%N ex_pk 0%N 101 1]) = false /\
+   keys_after (alias_hist 7 101 ++ [RemoveKey 3%N ex_pk 0%N 101 1]) = Ok [(ex_pk, 7)] /\
+   verified_after (alias_hist 7 101 ++ [RemoveKey 3%N ex_pk 0%N 101 1; AllowKey 3%N ex_pk 0%N 101 1]) = true)
+  /\ (snd (fst (check alias_stale_trace)) = 10%N /\ snd (fst (check alias_refused_trace)) = 10%N /\
+      check (ex_hdr, mt (alias_hist 7 101 ++ [RemoveKey 3%N ex_pk 0%N 101 1])) = (0%N, 0%N, 0%N) /\
+      check (ex_hdr, mt (alias_hist 101 7 ++ [RemoveKey 3%N ex_pk 0%N 7 1])) = (0%N, 0%N, 0%N)).
+Proof. split; [exact alias_model | exact monitor_rejects_alias_removal]. Qed.
 
 (* A nonce bump invalidates: in any reachable state, after a successful
    invalidate_claim_signatures(identity, topic) every claim of that identity and topic that the
